@@ -272,9 +272,62 @@ def lateListenStmt (st : St) (l s base op : String) : St × String :=
       st.bind l .post
   | _, _, _ => (st, "skip")
 
+/-- FRP built on stream `s` inside the handler of (the first event of) another stream `trig`, during propagation.
+    `events` of `s` as seen by what was built: the event `s` has in the building transaction itself (whether `s` was
+    updated before or after the handler ran), and every later one.  Returns the state and the number of that stream. -/
+def lateEvents (st : St) (l : String) (trig s : Nat) : St × Nat × Nat :=
+  let i := st.sp.defs.size
+  let st := st.addDef (l ++ "#o") (.once trig) .s                -- i     the building transaction
+  let st := st.addDef (l ++ "#m") (.mapto i 2) .s                -- i+1
+  let st := st.addDef (l ++ "#f") (.hold (i + 1) 1) .c           -- i+2   even once it happened
+  let st := st.addDef (l ++ "#w") (.when s i) .s                 -- i+3   s in the building transaction
+  let st := st.addDef (l ++ "#g") (.gate s (i + 2)) .s           -- i+4   s in later transactions
+  let st := st.addDef (l ++ "#e") (.orelse (i + 3) (i + 4)) .s   -- i+5
+  (st, i, i + 5)
+
+/-- `trig.once().listen(|_| { s.listen(log l) })` -/
+def handlerListenStmt (st : St) (l trig s : String) : St × String :=
+  if !st.fresh l then (st, "skip") else
+  match st.stream trig, st.stream s with
+  | some t, some s =>
+    st.inTxn fun st =>
+      let (st, _, e) := lateEvents st l t s
+      let st := { st with lis := st.lis.push { name := l, target := e, isCell := false, regTxn := st.sp.txn, weak := false } }
+      st.bind l .post
+  | _, _ => (st, "skip")
+
+/-- `trig.once().listen(|_| { c = s.hold(init); s.snapshot1(c).listen(log l) })`: every event of `s` from the building
+    transaction on reports the value the cell had before it: `init`, then the previous event — the event of the
+    building transaction included -/
+def lateHoldStmt (st : St) (l trig s init : String) : St × String :=
+  if !st.fresh l then (st, "skip") else
+  match st.stream trig, st.stream s, num init with
+  | some t, some s, some init =>
+    st.inTxn fun st =>
+      let (st, _, e) := lateEvents st l t s
+      let j := st.sp.defs.size
+      let st := st.addDef (l ++ "#h") (.hold e init) .c            -- j     the cell built by the handler
+      let st := st.addDef (l ++ "#v") (.snapshot1 e j) .s          -- j+1
+      let st := { st with lis := st.lis.push { name := l, target := j + 1, isCell := false, regTxn := st.sp.txn, weak := false } }
+      st.bind l .post
+  | _, _, _ => (st, "skip")
+
+/-- `trig.once().listen(|_| { sl = StreamLoop; sl.stream().map(f1 k).listen(log l); sl.loop_(s) })` -/
+def lateLoopStmt (st : St) (l trig s k : String) : St × String :=
+  if !st.fresh l then (st, "skip") else
+  match st.stream trig, st.stream s, num k with
+  | some t, some s, some k =>
+    st.inTxn fun st =>
+      let (st, _, e) := lateEvents st l t s
+      let j := st.sp.defs.size
+      let st := st.addDef (l ++ "#p") (.map e k) .s
+      let st := { st with lis := st.lis.push { name := l, target := j, isCell := false, regTxn := st.sp.txn, weak := false } }
+      st.bind l .post
+  | _, _, _ => (st, "skip")
+
 /-- `r.filter_matches(k0).once().listen(|_| { r.filter_matches(k).listen(log l) })` — a route requested from inside a
-    handler that runs after the router's update: from the transaction *after* the first event routed to `k0` on, `l` is
-    told every event routed to `k` (the requesting transaction's own event has already been dispatched). -/
+    handler, after the router has dispatched the event of the transaction: `l` is told every event routed to `k` from
+    the requesting transaction on, that transaction's own event included (C18: "requested before or after"). -/
 def routeLateStmt (st : St) (l r k0 k : String) : St × String :=
   if !st.fresh l then (st, "skip") else
   match num k0, num k, st.find r with
@@ -282,12 +335,9 @@ def routeLateStmt (st : St) (l r k0 k : String) : St × String :=
     st.inTxn fun st =>
       let i := st.sp.defs.size
       let st := st.addDef (l ++ "#t") (.route src sel k0) .s       -- i
-      let st := st.addDef (l ++ "#o") (.once i) .s                 -- i+1
-      let st := st.addDef (l ++ "#m") (.mapto (i + 1) 2) .s        -- i+2
-      let st := st.addDef (l ++ "#f") (.hold (i + 2) 1) .c         -- i+3
-      let st := st.addDef (l ++ "#r") (.route src sel k) .s        -- i+4
-      let st := st.addDef (l ++ "#e") (.gate (i + 4) (i + 3)) .s   -- i+5
-      let st := { st with lis := st.lis.push { name := l, target := i + 5, isCell := false, regTxn := st.sp.txn, weak := false } }
+      let st := st.addDef (l ++ "#r") (.route src sel k) .s        -- i+1
+      let (st, _, e) := lateEvents st l i (i + 1)
+      let st := { st with lis := st.lis.push { name := l, target := e, isCell := false, regTxn := st.sp.txn, weak := false } }
       st.bind l .post
   | _, _, _ => (st, "skip")
 
@@ -351,6 +401,16 @@ def stmt (st : St) (ws : List String) : St × String :=
       if cands.isEmpty then none else
       let cs ← streams st cands
       pure (.switchs sel cs)) .s
+  | "switchnest" :: x :: c :: sel :: cands =>
+    -- `switch_s(c.map(_ ↦ switch_s(sel.map(k ↦ cands[k mod n]))))`: the inner switch is rebuilt by the mapping function at
+    -- every update of `c` (the first time: when the outer switch samples its cell); each copy is the same switch
+    if c == sel then (st, "skip") else
+    defStmt st x (do
+      let _ ← st.cell c
+      let sel ← st.cell sel
+      if cands.isEmpty then none else
+      let cs ← streams st cands
+      pure (.switchs sel cs)) .s
   | ["switchdyn", x, sel, s, op] =>
     -- switch_s over candidates built afresh at every update of the selector, candidate for `k` = `s.map (f2 op · k)`:
     -- it emits `f2 op v (value of sel at the start of the transaction)`, which is exactly `snapshot s sel op`
@@ -390,6 +450,15 @@ def stmt (st : St) (ws : List String) : St × String :=
          st.bind l (.listener id)
      | _, _ => (st, "skip"))
   | ["routelate", l, r, k0, k] => routeLateStmt st l r k0 k
+  | ["handlerlisten", l, trig, s] => handlerListenStmt st l trig s
+  | ["leafdrop", l, trig, s, kind] =>
+    -- an unobserved primitive on `s` dropped by a handler of `trig`: no observable effect whatsoever
+    if !st.fresh l then (st, "skip") else
+    (match st.stream trig, st.stream s, num kind with
+     | some _, some _, some _ => (st.bind l .post, "ok")
+     | _, _, _ => (st, "skip"))
+  | ["latehold", l, trig, s, init] => lateHoldStmt st l trig s init
+  | ["lateloop", l, trig, s, k] => lateLoopStmt st l trig s k
   | ["latelisten", l, s, base, op] => lateListenStmt st l s base op
   | ["switchlate", x, s, base, op] => switchLateStmt st x s base op
   | ["switchlatec", x, s, base, op] => switchLateCStmt st x s base op
@@ -503,6 +572,7 @@ def stmt (st : St) (ws : List String) : St × String :=
     ({ st with lis := st.lis.map fun l => if l.dying then { l with active := false } else l }, "ok")
   | ["obs"] => (st, if st.depth > 0 then s!"open {st.depth}" else idleObs)
   | ["nodes"] => (st, "nodes=?")
+  | ["sendsync"] => (st, "sendsync=ok")
   | ["memcheck"] => (st, "mem=ok")
   | ["wfcheck"] => (st, "wf=ok")
   | ["leakcheck"] =>
